@@ -51,7 +51,7 @@ class PrivateHeader:
     def toJSON(self) -> OrderedDict:
         self.createTime = getTimestamp(self.stream)
         self.commitTime = getTimestamp(self.stream)
-        self.creatorID = bytes.decode(self.stream.get_mem(1))
+        self.creatorID = chr(self.stream.get_int(1))
         self.reserved0 = self.stream.get_int(1)
         self.reserved1 = self.stream.get_int(1)
         self.sectionCount = self.stream.get_int(1)
